@@ -455,6 +455,57 @@ impl Endpoint {
         Ok(())
     }
 
+    /// Readiness for reading without consuming anything (`TcpStream::readable`): ready when data
+    /// has arrived, at end of stream and after a reset; otherwise the waiter is registered exactly
+    /// as `poll_read` would register it.
+    pub fn poll_read_ready(&self, waiter: impl FnOnce() -> Waiter) -> Poll<io::Result<()>> {
+        let (sim, me) = match current() {
+            Some(x) => x,
+            None => return Poll::Ready(Err(io::Error::new(io::ErrorKind::Other, "no simulation"))),
+        };
+        sim.yield_point(me, Kind::NetRead, false);
+        let now = sim.now_ns();
+        let mut p = lock(&self.conn.pipes[self.in_dir()]);
+        if p.reset || p.arrived(now) > 0 {
+            return Poll::Ready(Ok(()));
+        }
+        if let Some((t, _)) = p.segs.front() {
+            let t = *t;
+            p.read_waiter = Some(waiter());
+            let need = !matches!(p.timer_deadline, Some(d) if d <= t);
+            if need {
+                p.timer_deadline = Some(t);
+            }
+            drop(p);
+            if need {
+                let aw = Arc::new(ArrivalWake { conn: self.conn.clone(), dir: self.in_dir() });
+                sim.add_timer(t, TimerTarget::Waker(Waker::from(aw)));
+            }
+            return Poll::Pending;
+        }
+        if p.write_closed {
+            return Poll::Ready(Ok(()));
+        }
+        p.read_waiter = Some(waiter());
+        Poll::Pending
+    }
+
+    /// Readiness for writing (`TcpStream::writable`): ready when the pipe has room or a write
+    /// would fail at once.
+    pub fn poll_write_ready(&self, waiter: impl FnOnce() -> Waiter) -> Poll<io::Result<()>> {
+        let (sim, me) = match current() {
+            Some(x) => x,
+            None => return Poll::Ready(Err(io::Error::new(io::ErrorKind::Other, "no simulation"))),
+        };
+        sim.yield_point(me, Kind::NetWrite, false);
+        let mut p = lock(&self.conn.pipes[self.out_dir()]);
+        if p.reset || p.write_closed || p.read_closed || self.conn.cfg.capacity > p.buffered {
+            return Poll::Ready(Ok(()));
+        }
+        p.write_waiter = Some(waiter());
+        Poll::Pending
+    }
+
     /// Non-blocking probe: how many bytes could be read right now (arrived), and whether EOF
     /// or reset would be reported.
     pub fn readable_now(&self) -> (usize, bool, bool) {
